@@ -466,7 +466,9 @@ int main(int argc, char **argv)
                         memcpy(inc, in, len);
                         GUARD_OP("xts"); fprintf(fo, "X %c %d %llu %llu %llu %u %llu %d\n", dec ? 'd' : 'e', bits, (unsigned long long) k1s, (unsigned long long) k2s,
                                 (unsigned long long) tws, len, (unsigned long long) ds, ex);
-                        uint8_t *e1 = abuf(240, 0), *d1 = abuf(240, 0), *e2 = abuf(240, 0), *d2 = abuf(240, 0);
+                        /* the pre-expanded schedules may sit at any alignment too (aes_xts.h states no requirement) */
+                        unsigned xo1 = rng_below(&R, 2) ? rng_below(&R, 16) : 0, xo2 = rng_below(&R, 2) ? rng_below(&R, 16) : 0;
+                        uint8_t *e1 = abuf(240, xo1), *d1 = abuf(240, xo1), *e2 = abuf(240, xo2), *d2 = abuf(240, xo2);
                         if (ex) {
                                 if (b) { _aes_keyexp_256_sse(k1, e1, d1); _aes_keyexp_256_sse(k2, e2, d2); }
                                 else { _aes_keyexp_128_sse(k1, e1, d1); _aes_keyexp_128_sse(k2, e2, d2); }
@@ -493,7 +495,7 @@ int main(int argc, char **argv)
                                 if (!inplace && (guard_mode != 1 && out[len] != 0xEE)) monitor("C08-write-past-output", len);
                         }
                         free(inc); free(ref);
-                        AFREE(e1, 0); AFREE(d1, 0); AFREE(e2, 0); AFREE(d2, 0);
+                        AFREE(e1, xo1); AFREE(d1, xo1); AFREE(e2, xo2); AFREE(d2, xo2);
                         if (!inplace) AFREE(out, oo);
                         AFREE(in, oi); AFREE(k1, o1); AFREE(k2, o2); AFREE(tw, o3);
                         done++;
